@@ -1,1 +1,1038 @@
-//! reference application-layer codec (filled in below)
+//! Reference application layer: object table, header walker, measurement
+//! decoders and request/response builders.  Written from IEEE 1815 (object
+//! library and qualifier rules); shares no code with the library.
+
+pub const FIR: u8 = 0x80;
+pub const FIN: u8 = 0x40;
+pub const CON: u8 = 0x20;
+pub const UNS: u8 = 0x10;
+
+// function codes
+pub const F_CONFIRM: u8 = 0;
+pub const F_READ: u8 = 1;
+pub const F_WRITE: u8 = 2;
+pub const F_SELECT: u8 = 3;
+pub const F_OPERATE: u8 = 4;
+pub const F_DIRECT_OPERATE: u8 = 5;
+pub const F_DIRECT_OPERATE_NR: u8 = 6;
+pub const F_IMMED_FREEZE: u8 = 7;
+pub const F_IMMED_FREEZE_NR: u8 = 8;
+pub const F_FREEZE_CLEAR: u8 = 9;
+pub const F_FREEZE_CLEAR_NR: u8 = 10;
+pub const F_FREEZE_AT_TIME: u8 = 11;
+pub const F_FREEZE_AT_TIME_NR: u8 = 12;
+pub const F_COLD_RESTART: u8 = 13;
+pub const F_WARM_RESTART: u8 = 14;
+pub const F_ENABLE_UNSOL: u8 = 20;
+pub const F_DISABLE_UNSOL: u8 = 21;
+pub const F_ASSIGN_CLASS: u8 = 22;
+pub const F_DELAY_MEASURE: u8 = 23;
+pub const F_RECORD_CURRENT_TIME: u8 = 24;
+pub const F_RESPONSE: u8 = 129;
+pub const F_UNSOL_RESPONSE: u8 = 130;
+
+/// highest request function code defined by IEEE 1815-2012
+pub const MAX_REQUEST_FUNCTION: u8 = 33;
+
+// IIN1
+pub const IIN1_BROADCAST: u8 = 0x01;
+pub const IIN1_CLASS1: u8 = 0x02;
+pub const IIN1_CLASS2: u8 = 0x04;
+pub const IIN1_CLASS3: u8 = 0x08;
+pub const IIN1_NEED_TIME: u8 = 0x10;
+pub const IIN1_LOCAL_CONTROL: u8 = 0x20;
+pub const IIN1_DEVICE_TROUBLE: u8 = 0x40;
+pub const IIN1_RESTART: u8 = 0x80;
+// IIN2
+pub const IIN2_NO_FUNC: u8 = 0x01;
+pub const IIN2_OBJECT_UNKNOWN: u8 = 0x02;
+pub const IIN2_PARAM_ERROR: u8 = 0x04;
+pub const IIN2_OVERFLOW: u8 = 0x08;
+pub const IIN2_ALREADY_EXECUTING: u8 = 0x10;
+pub const IIN2_CONFIG_CORRUPT: u8 = 0x20;
+pub const IIN2_ERRORS: u8 = IIN2_NO_FUNC | IIN2_OBJECT_UNKNOWN | IIN2_PARAM_ERROR;
+
+// qualifiers
+pub const Q_RANGE8: u8 = 0x00;
+pub const Q_RANGE16: u8 = 0x01;
+pub const Q_ALL: u8 = 0x06;
+pub const Q_COUNT8: u8 = 0x07;
+pub const Q_COUNT16: u8 = 0x08;
+pub const Q_PREFIX8: u8 = 0x17;
+pub const Q_PREFIX16: u8 = 0x28;
+pub const Q_FREE16: u8 = 0x5B;
+
+#[derive(Clone, Copy, Debug, PartialEq, Eq)]
+pub enum Kind {
+    /// fixed size in bytes
+    Fixed(usize),
+    /// 1 bit per object, packed
+    Bit,
+    /// 2 bits per object, packed
+    DBit,
+    /// octet string, size = variation
+    Octets,
+    /// variation 0 / class objects: never carry data
+    NoData,
+    /// free-format (g70)
+    Free,
+    /// device attribute
+    Attr,
+}
+
+/// the object library (IEEE 1815 Annex A) restricted to what DNP3 level-2/3 devices and this library use
+pub fn kind(group: u8, var: u8) -> Option<Kind> {
+    use Kind::*;
+    let k = match (group, var) {
+        (0, 0) => return None,
+        (0, _) => Attr,
+        (1, 0) | (2, 0) | (3, 0) | (4, 0) | (10, 0) | (11, 0) | (20, 0) | (21, 0) | (22, 0) | (23, 0) => NoData,
+        (30, 0) | (31, 0) | (32, 0) | (33, 0) | (34, 0) | (40, 0) | (42, 0) | (102, 0) => NoData,
+        (1, 1) => Bit,
+        (1, 2) => Fixed(1),
+        (2, 1) => Fixed(1),
+        (2, 2) => Fixed(7),
+        (2, 3) => Fixed(3),
+        (3, 1) => DBit,
+        (3, 2) => Fixed(1),
+        (4, 1) => Fixed(1),
+        (4, 2) => Fixed(7),
+        (4, 3) => Fixed(3),
+        (10, 1) => Bit,
+        (10, 2) => Fixed(1),
+        (11, 1) => Fixed(1),
+        (11, 2) => Fixed(7),
+        (12, 1) => Fixed(11),
+        (13, 1) => Fixed(1),
+        (13, 2) => Fixed(7),
+        (20, 1) => Fixed(5),
+        (20, 2) => Fixed(3),
+        (20, 5) => Fixed(4),
+        (20, 6) => Fixed(2),
+        (21, 1) => Fixed(5),
+        (21, 2) => Fixed(3),
+        (21, 5) => Fixed(11),
+        (21, 6) => Fixed(9),
+        (21, 9) => Fixed(4),
+        (21, 10) => Fixed(2),
+        (22, 1) | (23, 1) => Fixed(5),
+        (22, 2) | (23, 2) => Fixed(3),
+        (22, 5) | (23, 5) => Fixed(11),
+        (22, 6) | (23, 6) => Fixed(9),
+        (30, 1) => Fixed(5),
+        (30, 2) => Fixed(3),
+        (30, 3) => Fixed(4),
+        (30, 4) => Fixed(2),
+        (30, 5) => Fixed(5),
+        (30, 6) => Fixed(9),
+        (31, 1) => Fixed(5),
+        (31, 2) => Fixed(3),
+        (31, 3) => Fixed(11),
+        (31, 4) => Fixed(9),
+        (31, 5) => Fixed(4),
+        (31, 6) => Fixed(2),
+        (31, 7) => Fixed(5),
+        (31, 8) => Fixed(9),
+        (32, 1) | (33, 1) | (42, 1) => Fixed(5),
+        (32, 2) | (33, 2) | (42, 2) => Fixed(3),
+        (32, 3) | (33, 3) | (42, 3) => Fixed(11),
+        (32, 4) | (33, 4) | (42, 4) => Fixed(9),
+        (32, 5) | (33, 5) | (42, 5) => Fixed(5),
+        (32, 6) | (33, 6) | (42, 6) => Fixed(9),
+        (32, 7) | (33, 7) | (42, 7) => Fixed(11),
+        (32, 8) | (33, 8) | (42, 8) => Fixed(15),
+        (34, 1) => Fixed(2),
+        (34, 2) => Fixed(4),
+        (34, 3) => Fixed(4),
+        (40, 1) => Fixed(5),
+        (40, 2) => Fixed(3),
+        (40, 3) => Fixed(5),
+        (40, 4) => Fixed(9),
+        (41, 1) => Fixed(5),
+        (41, 2) => Fixed(3),
+        (41, 3) => Fixed(5),
+        (41, 4) => Fixed(9),
+        (43, 1) => Fixed(5),
+        (43, 2) => Fixed(3),
+        (43, 3) => Fixed(11),
+        (43, 4) => Fixed(9),
+        (43, 5) => Fixed(5),
+        (43, 6) => Fixed(9),
+        (43, 7) => Fixed(11),
+        (43, 8) => Fixed(15),
+        (50, 1) => Fixed(6),
+        (50, 2) => Fixed(10),
+        (50, 3) => Fixed(6),
+        (50, 4) => Fixed(11),
+        (51, 1) | (51, 2) => Fixed(6),
+        (52, 1) | (52, 2) => Fixed(2),
+        (60, 1..=4) => NoData,
+        (70, 2..=8) => Free,
+        (80, 1) => Bit,
+        (102, 1) => Fixed(1),
+        (110, _) | (111, _) => Octets,
+        _ => return None,
+    };
+    Some(k)
+}
+
+/// all (group, variation) pairs of the table (octet strings with a few lengths)
+pub fn all_variations() -> Vec<(u8, u8)> {
+    let mut v = vec![];
+    for g in 0..=255u8 {
+        for var in 0..=255u8 {
+            if kind(g, var).is_some() {
+                if (g == 110 || g == 111 || g == 0) && !matches!(var, 0 | 1 | 2 | 7 | 200 | 254 | 255) {
+                    continue;
+                }
+                v.push((g, var));
+            }
+        }
+    }
+    v
+}
+
+#[derive(Clone, Debug, PartialEq)]
+pub struct Obj {
+    pub index: Option<u32>,
+    /// raw object bytes (for Bit/DBit: one byte holding the value)
+    pub bytes: Vec<u8>,
+}
+
+#[derive(Clone, Debug, PartialEq)]
+pub struct Header {
+    pub group: u8,
+    pub var: u8,
+    pub qual: u8,
+    pub start: u32,
+    pub stop: u32,
+    /// number of objects the header declares
+    pub count: u32,
+    pub objs: Vec<Obj>,
+    /// offset of this header in the object data and its total encoded length
+    pub offset: usize,
+    pub len: usize,
+}
+
+#[derive(Clone, Debug, PartialEq, Eq)]
+pub enum WalkErr {
+    Truncated,
+    UnknownObject(u8, u8),
+    UnknownQualifier(u8),
+    InvalidRange,
+    /// the qualifier cannot be used with this object / function
+    BadQualifier(u8, u8, u8),
+    ZeroLengthOctets,
+    BadFreeFormat,
+}
+
+#[derive(Clone, Debug)]
+pub struct Walk {
+    pub headers: Vec<Header>,
+    pub error: Option<WalkErr>,
+    /// false when the walk met a combination on which the standard (as far as
+    /// this table knows it) is silent; acceptance is then not compared
+    pub defined: bool,
+}
+
+fn rd16(b: &[u8], p: usize) -> Option<u32> {
+    if p + 2 <= b.len() {
+        Some(u16::from_le_bytes([b[p], b[p + 1]]) as u32)
+    } else {
+        None
+    }
+}
+
+/// groups whose objects are events (reported with an index prefix)
+pub fn is_event_group(g: u8) -> bool {
+    matches!(g, 2 | 4 | 11 | 13 | 22 | 23 | 32 | 33 | 42 | 43 | 111)
+}
+/// groups whose objects are static / addressed by range
+pub fn is_static_group(g: u8) -> bool {
+    matches!(g, 1 | 3 | 10 | 20 | 21 | 30 | 31 | 34 | 40 | 80 | 102 | 110)
+}
+
+/// Walk the object headers of a fragment with function code `function`.
+pub fn walk(function: u8, data: &[u8], zero_len_octets_ok: bool) -> Walk {
+    let mut w = Walk { headers: vec![], error: None, defined: true };
+    let is_read = function == F_READ;
+    let mut p = 0usize;
+    macro_rules! fail {
+        ($e:expr) => {{
+            w.error = Some($e);
+            return w;
+        }};
+    }
+    while p < data.len() {
+        let offset = p;
+        if p + 3 > data.len() {
+            // a group/variation without the qualifier, or a lone byte
+            if p + 2 <= data.len() && kind(data[p], data[p + 1]).is_none() {
+                fail!(WalkErr::UnknownObject(data[p], data[p + 1]));
+            }
+            fail!(WalkErr::Truncated);
+        }
+        let (g, v, q) = (data[p], data[p + 1], data[p + 2]);
+        p += 3;
+        let k = match kind(g, v) {
+            Some(k) => k,
+            None => fail!(WalkErr::UnknownObject(g, v)),
+        };
+        if !matches!(q, Q_RANGE8 | Q_RANGE16 | Q_ALL | Q_COUNT8 | Q_COUNT16 | Q_PREFIX8 | Q_PREFIX16 | Q_FREE16) {
+            // other qualifier codes exist in the standard (0x02..0x05, 0x09, 0x27, 0x39 ...)
+            // but no DNP3 subset level uses them; a parser may reject them
+            fail!(WalkErr::UnknownQualifier(q));
+        }
+        let mut h = Header { group: g, var: v, qual: q, start: 0, stop: 0, count: 0, objs: vec![], offset, len: 0 };
+        match q {
+            Q_ALL => {
+                // "all objects": requests only, never data
+                if k == Kind::Free {
+                    fail!(WalkErr::BadQualifier(g, v, q));
+                }
+                if !is_read && !matches!(function, F_IMMED_FREEZE..=F_FREEZE_AT_TIME_NR | F_ENABLE_UNSOL | F_DISABLE_UNSOL | F_ASSIGN_CLASS) {
+                    w.defined = false;
+                }
+            }
+            Q_RANGE8 | Q_RANGE16 => {
+                let (start, stop) = if q == Q_RANGE8 {
+                    if p + 2 > data.len() {
+                        fail!(WalkErr::Truncated);
+                    }
+                    let r = (data[p] as u32, data[p + 1] as u32);
+                    p += 2;
+                    r
+                } else {
+                    let a = rd16(data, p);
+                    let b = rd16(data, p + 2);
+                    match (a, b) {
+                        (Some(a), Some(b)) => {
+                            p += 4;
+                            (a, b)
+                        }
+                        _ => fail!(WalkErr::Truncated),
+                    }
+                };
+                h.start = start;
+                h.stop = stop;
+                if stop < start {
+                    fail!(WalkErr::InvalidRange);
+                }
+                let count = stop - start + 1;
+                h.count = count;
+                if is_event_group(g) || matches!(g, 12 | 41 | 50 | 51 | 52 | 60 | 70) {
+                    // ranges address static points; events/commands/times are not range addressed
+                    if matches!(k, Kind::NoData) && g == 60 {
+                        fail!(WalkErr::BadQualifier(g, v, q));
+                    }
+                    w.defined = false;
+                }
+                if is_read {
+                    // READ requests carry no object data
+                    if k == Kind::Free {
+                        fail!(WalkErr::BadQualifier(g, v, q));
+                    }
+                } else {
+                    match k {
+                        Kind::NoData => {
+                            // variation 0 cannot be encoded
+                            w.defined = false;
+                        }
+                        Kind::Fixed(sz) => {
+                            let need = sz * count as usize;
+                            if p + need > data.len() {
+                                fail!(WalkErr::Truncated);
+                            }
+                            for i in 0..count {
+                                let s = p + sz * i as usize;
+                                h.objs.push(Obj { index: Some(start + i), bytes: data[s..s + sz].to_vec() });
+                            }
+                            p += need;
+                        }
+                        Kind::Bit => {
+                            let need = (count as usize + 7) / 8;
+                            if p + need > data.len() {
+                                fail!(WalkErr::Truncated);
+                            }
+                            for i in 0..count {
+                                let b = data[p + (i / 8) as usize] >> (i % 8) & 1;
+                                h.objs.push(Obj { index: Some(start + i), bytes: vec![b] });
+                            }
+                            p += need;
+                        }
+                        Kind::DBit => {
+                            let need = (count as usize + 3) / 4;
+                            if p + need > data.len() {
+                                fail!(WalkErr::Truncated);
+                            }
+                            for i in 0..count {
+                                let b = data[p + (i / 4) as usize] >> (2 * (i % 4)) & 3;
+                                h.objs.push(Obj { index: Some(start + i), bytes: vec![b] });
+                            }
+                            p += need;
+                        }
+                        Kind::Octets => {
+                            if v == 0 {
+                                if !zero_len_octets_ok {
+                                    fail!(WalkErr::ZeroLengthOctets);
+                                }
+                                for i in 0..count {
+                                    h.objs.push(Obj { index: Some(start + i), bytes: vec![] });
+                                }
+                            } else {
+                                let sz = v as usize;
+                                let need = sz * count as usize;
+                                if p + need > data.len() {
+                                    fail!(WalkErr::Truncated);
+                                }
+                                for i in 0..count {
+                                    let s = p + sz * i as usize;
+                                    h.objs.push(Obj { index: Some(start + i), bytes: data[s..s + sz].to_vec() });
+                                }
+                                p += need;
+                            }
+                        }
+                        Kind::Attr => {
+                            // attribute: data type code, length, value
+                            w.defined = false;
+                            if count != 1 {
+                                fail!(WalkErr::BadQualifier(g, v, q));
+                            }
+                            if p + 2 > data.len() {
+                                fail!(WalkErr::Truncated);
+                            }
+                            let len = data[p + 1] as usize;
+                            if p + 2 + len > data.len() {
+                                fail!(WalkErr::Truncated);
+                            }
+                            h.objs.push(Obj { index: Some(start), bytes: data[p..p + 2 + len].to_vec() });
+                            p += 2 + len;
+                        }
+                        Kind::Free => fail!(WalkErr::BadQualifier(g, v, q)),
+                    }
+                }
+            }
+            Q_COUNT8 | Q_COUNT16 => {
+                let count = if q == Q_COUNT8 {
+                    if p + 1 > data.len() {
+                        fail!(WalkErr::Truncated);
+                    }
+                    p += 1;
+                    data[p - 1] as u32
+                } else {
+                    match rd16(data, p) {
+                        Some(c) => {
+                            p += 2;
+                            c
+                        }
+                        None => fail!(WalkErr::Truncated),
+                    }
+                };
+                h.count = count;
+                match (g, k) {
+                    // time objects are carried with a plain count
+                    (50 | 51 | 52, Kind::Fixed(sz)) => {
+                        if is_read {
+                            // reading the time: whether object bytes follow is device specific
+                            w.defined = false;
+                        }
+                        let need = sz * count as usize;
+                        if p + need > data.len() {
+                            fail!(WalkErr::Truncated);
+                        }
+                        for i in 0..count {
+                            let s = p + sz * i as usize;
+                            h.objs.push(Obj { index: None, bytes: data[s..s + sz].to_vec() });
+                        }
+                        p += need;
+                    }
+                    _ => {
+                        // limited-count reads of events / classes: no data
+                        if !(is_event_group(g) || g == 60) {
+                            if is_static_group(g) || matches!(g, 0 | 12 | 41 | 70) {
+                                fail!(WalkErr::BadQualifier(g, v, q));
+                            }
+                            w.defined = false;
+                        }
+                        if g == 60 && v == 1 {
+                            fail!(WalkErr::BadQualifier(g, v, q));
+                        }
+                        if !is_read {
+                            w.defined = false;
+                        }
+                    }
+                }
+            }
+            Q_PREFIX8 | Q_PREFIX16 => {
+                let isz = if q == Q_PREFIX8 { 1 } else { 2 };
+                let count = if q == Q_PREFIX8 {
+                    if p + 1 > data.len() {
+                        fail!(WalkErr::Truncated);
+                    }
+                    p += 1;
+                    data[p - 1] as u32
+                } else {
+                    match rd16(data, p) {
+                        Some(c) => {
+                            p += 2;
+                            c
+                        }
+                        None => fail!(WalkErr::Truncated),
+                    }
+                };
+                h.count = count;
+                if is_read {
+                    // index lists in reads are not used by this library
+                    w.defined = false;
+                }
+                let sz = match k {
+                    Kind::Fixed(sz) => sz,
+                    Kind::Octets => {
+                        if v == 0 && !zero_len_octets_ok {
+                            fail!(WalkErr::ZeroLengthOctets);
+                        }
+                        v as usize
+                    }
+                    Kind::Bit | Kind::DBit | Kind::NoData | Kind::Free | Kind::Attr => {
+                        fail!(WalkErr::BadQualifier(g, v, q))
+                    }
+                };
+                if !(is_event_group(g) || matches!(g, 12 | 34 | 41 | 50)) {
+                    // static objects are range addressed; an index prefix is unusual
+                    w.defined = false;
+                }
+                let need = (isz + sz) * count as usize;
+                if p + need > data.len() {
+                    fail!(WalkErr::Truncated);
+                }
+                for i in 0..count as usize {
+                    let s = p + (isz + sz) * i;
+                    let idx = if isz == 1 { data[s] as u32 } else { u16::from_le_bytes([data[s], data[s + 1]]) as u32 };
+                    h.objs.push(Obj { index: Some(idx), bytes: data[s + isz..s + isz + sz].to_vec() });
+                }
+                p += need;
+            }
+            Q_FREE16 => {
+                if k != Kind::Free {
+                    fail!(WalkErr::BadQualifier(g, v, q));
+                }
+                if p + 1 > data.len() {
+                    fail!(WalkErr::Truncated);
+                }
+                let count = data[p] as u32;
+                p += 1;
+                h.count = count;
+                if count != 1 {
+                    // the standard allows several; implementations commonly require exactly one
+                    w.defined = false;
+                    fail!(WalkErr::BadFreeFormat);
+                }
+                let len = match rd16(data, p) {
+                    Some(l) => l as usize,
+                    None => fail!(WalkErr::Truncated),
+                };
+                p += 2;
+                if p + len > data.len() {
+                    fail!(WalkErr::Truncated);
+                }
+                h.objs.push(Obj { index: None, bytes: data[p..p + len].to_vec() });
+                // inner structure of file objects is validated by the object itself
+                w.defined = false;
+                p += len;
+            }
+            _ => unreachable!(),
+        }
+        h.len = p - offset;
+        w.headers.push(h);
+    }
+    w
+}
+
+// ---------------------------------------------------------------------------
+// fragments
+
+#[derive(Clone, Debug, PartialEq)]
+pub struct Fragment {
+    pub ctrl: u8,
+    pub func: u8,
+    pub iin: Option<(u8, u8)>,
+    pub objects: Vec<u8>,
+}
+
+impl Fragment {
+    pub fn seq(&self) -> u8 {
+        self.ctrl & 0x0F
+    }
+    pub fn fir(&self) -> bool {
+        self.ctrl & FIR != 0
+    }
+    pub fn fin(&self) -> bool {
+        self.ctrl & FIN != 0
+    }
+    pub fn con(&self) -> bool {
+        self.ctrl & CON != 0
+    }
+    pub fn uns(&self) -> bool {
+        self.ctrl & UNS != 0
+    }
+    pub fn is_response(&self) -> bool {
+        self.func == F_RESPONSE || self.func == F_UNSOL_RESPONSE
+    }
+    pub fn parse(b: &[u8]) -> Option<Fragment> {
+        if b.len() < 2 {
+            return None;
+        }
+        let func = b[1];
+        if func == F_RESPONSE || func == F_UNSOL_RESPONSE {
+            if b.len() < 4 {
+                return None;
+            }
+            Some(Fragment { ctrl: b[0], func, iin: Some((b[2], b[3])), objects: b[4..].to_vec() })
+        } else {
+            Some(Fragment { ctrl: b[0], func, iin: None, objects: b[2..].to_vec() })
+        }
+    }
+    pub fn encode(&self) -> Vec<u8> {
+        let mut v = vec![self.ctrl, self.func];
+        if let Some((a, b)) = self.iin {
+            v.push(a);
+            v.push(b);
+        }
+        v.extend_from_slice(&self.objects);
+        v
+    }
+}
+
+/// builder for request / response fragments
+#[derive(Clone, Debug)]
+pub struct B {
+    pub bytes: Vec<u8>,
+}
+
+impl B {
+    pub fn request(func: u8, seq: u8) -> B {
+        B { bytes: vec![FIR | FIN | (seq & 0x0F), func] }
+    }
+    pub fn with_ctrl(ctrl: u8, func: u8) -> B {
+        B { bytes: vec![ctrl, func] }
+    }
+    pub fn confirm(seq: u8, uns: bool) -> B {
+        B { bytes: vec![FIR | FIN | if uns { UNS } else { 0 } | (seq & 0x0F), F_CONFIRM] }
+    }
+    pub fn response(ctrl: u8, unsolicited: bool, iin1: u8, iin2: u8) -> B {
+        B { bytes: vec![ctrl, if unsolicited { F_UNSOL_RESPONSE } else { F_RESPONSE }, iin1, iin2] }
+    }
+    pub fn all(mut self, g: u8, v: u8) -> B {
+        self.bytes.extend_from_slice(&[g, v, Q_ALL]);
+        self
+    }
+    pub fn range8(mut self, g: u8, v: u8, start: u8, stop: u8, data: &[u8]) -> B {
+        self.bytes.extend_from_slice(&[g, v, Q_RANGE8, start, stop]);
+        self.bytes.extend_from_slice(data);
+        self
+    }
+    pub fn range16(mut self, g: u8, v: u8, start: u16, stop: u16, data: &[u8]) -> B {
+        self.bytes.extend_from_slice(&[g, v, Q_RANGE16]);
+        self.bytes.extend_from_slice(&start.to_le_bytes());
+        self.bytes.extend_from_slice(&stop.to_le_bytes());
+        self.bytes.extend_from_slice(data);
+        self
+    }
+    pub fn count8(mut self, g: u8, v: u8, n: u8, data: &[u8]) -> B {
+        self.bytes.extend_from_slice(&[g, v, Q_COUNT8, n]);
+        self.bytes.extend_from_slice(data);
+        self
+    }
+    pub fn count16(mut self, g: u8, v: u8, n: u16, data: &[u8]) -> B {
+        self.bytes.extend_from_slice(&[g, v, Q_COUNT16]);
+        self.bytes.extend_from_slice(&n.to_le_bytes());
+        self.bytes.extend_from_slice(data);
+        self
+    }
+    /// items: (index, object bytes)
+    pub fn prefixed8(mut self, g: u8, v: u8, items: &[(u8, Vec<u8>)]) -> B {
+        self.bytes.extend_from_slice(&[g, v, Q_PREFIX8, items.len() as u8]);
+        for (i, d) in items {
+            self.bytes.push(*i);
+            self.bytes.extend_from_slice(d);
+        }
+        self
+    }
+    pub fn prefixed16(mut self, g: u8, v: u8, items: &[(u16, Vec<u8>)]) -> B {
+        self.bytes.extend_from_slice(&[g, v, Q_PREFIX16]);
+        self.bytes.extend_from_slice(&(items.len() as u16).to_le_bytes());
+        for (i, d) in items {
+            self.bytes.extend_from_slice(&i.to_le_bytes());
+            self.bytes.extend_from_slice(d);
+        }
+        self
+    }
+    pub fn raw(mut self, data: &[u8]) -> B {
+        self.bytes.extend_from_slice(data);
+        self
+    }
+    pub fn done(self) -> Vec<u8> {
+        self.bytes
+    }
+}
+
+/// CROB (g12v1): code, count, on, off, status
+pub fn crob(code: u8, count: u8, on_ms: u32, off_ms: u32, status: u8) -> Vec<u8> {
+    let mut v = vec![code, count];
+    v.extend_from_slice(&on_ms.to_le_bytes());
+    v.extend_from_slice(&off_ms.to_le_bytes());
+    v.push(status);
+    v
+}
+pub fn ao_i32(value: i32, status: u8) -> Vec<u8> {
+    let mut v = value.to_le_bytes().to_vec();
+    v.push(status);
+    v
+}
+pub fn ao_i16(value: i16, status: u8) -> Vec<u8> {
+    let mut v = value.to_le_bytes().to_vec();
+    v.push(status);
+    v
+}
+pub fn ao_f32(value: f32, status: u8) -> Vec<u8> {
+    let mut v = value.to_le_bytes().to_vec();
+    v.push(status);
+    v
+}
+pub fn ao_f64(value: f64, status: u8) -> Vec<u8> {
+    let mut v = value.to_le_bytes().to_vec();
+    v.push(status);
+    v
+}
+pub fn time48(ms: u64) -> Vec<u8> {
+    ms.to_le_bytes()[..6].to_vec()
+}
+pub fn rd48(b: &[u8]) -> u64 {
+    let mut x = [0u8; 8];
+    x[..6].copy_from_slice(&b[..6]);
+    u64::from_le_bytes(x)
+}
+
+// ---------------------------------------------------------------------------
+// measurements
+
+#[derive(Clone, Copy, Debug, PartialEq, Eq, PartialOrd, Ord, Hash)]
+pub enum PType {
+    Binary,
+    DoubleBit,
+    BinaryOutputStatus,
+    Counter,
+    FrozenCounter,
+    Analog,
+    FrozenAnalog,
+    AnalogOutputStatus,
+    OctetString,
+    BinaryCommandEvent,
+    AnalogCommandEvent,
+    AnalogDeadBand,
+    UnsignedInteger,
+}
+
+#[derive(Clone, Debug, PartialEq)]
+pub enum Val {
+    Bool(bool),
+    DBit(u8),
+    U32(u32),
+    U16(u16),
+    I32(i32),
+    I16(i16),
+    F32(f32),
+    F64(f64),
+    Bytes(Vec<u8>),
+    U8(u8),
+}
+
+impl Val {
+    pub fn as_f64(&self) -> f64 {
+        match self {
+            Val::Bool(b) => *b as u8 as f64,
+            Val::DBit(x) | Val::U8(x) => *x as f64,
+            Val::U32(x) => *x as f64,
+            Val::U16(x) => *x as f64,
+            Val::I32(x) => *x as f64,
+            Val::I16(x) => *x as f64,
+            Val::F32(x) => *x as f64,
+            Val::F64(x) => *x,
+            Val::Bytes(_) => f64::NAN,
+        }
+    }
+}
+
+#[derive(Clone, Debug, PartialEq)]
+pub struct Meas {
+    pub ptype: PType,
+    pub is_event: bool,
+    pub group: u8,
+    pub var: u8,
+    pub index: u32,
+    pub val: Val,
+    /// flag octet as on the wire (for binary types the value bits are masked out)
+    pub flags: Option<u8>,
+    /// absolute time (ms) if the variation carries one (relative times already resolved by the caller)
+    pub time: Option<u64>,
+    /// 16-bit relative time of g2v3/g4v3
+    pub rel_time: Option<u16>,
+    /// for command events: status code
+    pub status: Option<u8>,
+}
+
+fn le16(b: &[u8]) -> u16 {
+    u16::from_le_bytes([b[0], b[1]])
+}
+fn le32(b: &[u8]) -> u32 {
+    u32::from_le_bytes([b[0], b[1], b[2], b[3]])
+}
+fn lef32(b: &[u8]) -> f32 {
+    f32::from_le_bytes([b[0], b[1], b[2], b[3]])
+}
+fn lef64(b: &[u8]) -> f64 {
+    let mut x = [0u8; 8];
+    x.copy_from_slice(&b[..8]);
+    f64::from_le_bytes(x)
+}
+
+/// Decode one measurement object. Returns None for objects that are not measurements.
+pub fn decode_meas(g: u8, v: u8, index: u32, b: &[u8]) -> Option<Meas> {
+    use PType::*;
+    let mut m = Meas { ptype: Binary, is_event: is_event_group(g), group: g, var: v, index, val: Val::Bool(false), flags: None, time: None, rel_time: None, status: None };
+    match (g, v) {
+        (1, 1) | (10, 1) => {
+            m.ptype = if g == 1 { Binary } else { BinaryOutputStatus };
+            m.val = Val::Bool(b[0] != 0);
+        }
+        (1, 2) | (10, 2) | (2, 1) | (11, 1) => {
+            m.ptype = if g == 1 || g == 2 { Binary } else { BinaryOutputStatus };
+            m.val = Val::Bool(b[0] & 0x80 != 0);
+            m.flags = Some(b[0] & 0x7F);
+        }
+        (2, 2) | (11, 2) => {
+            m.ptype = if g == 2 { Binary } else { BinaryOutputStatus };
+            m.val = Val::Bool(b[0] & 0x80 != 0);
+            m.flags = Some(b[0] & 0x7F);
+            m.time = Some(rd48(&b[1..]));
+        }
+        (2, 3) => {
+            m.ptype = Binary;
+            m.val = Val::Bool(b[0] & 0x80 != 0);
+            m.flags = Some(b[0] & 0x7F);
+            m.rel_time = Some(le16(&b[1..]));
+        }
+        (3, 1) => {
+            m.ptype = DoubleBit;
+            m.val = Val::DBit(b[0] & 3);
+        }
+        (3, 2) | (4, 1) => {
+            m.ptype = DoubleBit;
+            m.val = Val::DBit(b[0] >> 6);
+            m.flags = Some(b[0] & 0x3F);
+        }
+        (4, 2) => {
+            m.ptype = DoubleBit;
+            m.val = Val::DBit(b[0] >> 6);
+            m.flags = Some(b[0] & 0x3F);
+            m.time = Some(rd48(&b[1..]));
+        }
+        (4, 3) => {
+            m.ptype = DoubleBit;
+            m.val = Val::DBit(b[0] >> 6);
+            m.flags = Some(b[0] & 0x3F);
+            m.rel_time = Some(le16(&b[1..]));
+        }
+        (13, 1) | (13, 2) => {
+            m.ptype = BinaryCommandEvent;
+            m.val = Val::Bool(b[0] & 0x80 != 0);
+            m.status = Some(b[0] & 0x7F);
+            if v == 2 {
+                m.time = Some(rd48(&b[1..]));
+            }
+        }
+        (20, 1) | (21, 1) | (22, 1) | (23, 1) => {
+            m.ptype = if g == 20 || g == 22 { Counter } else { FrozenCounter };
+            m.flags = Some(b[0]);
+            m.val = Val::U32(le32(&b[1..]));
+        }
+        (20, 2) | (21, 2) | (22, 2) | (23, 2) => {
+            m.ptype = if g == 20 || g == 22 { Counter } else { FrozenCounter };
+            m.flags = Some(b[0]);
+            m.val = Val::U16(le16(&b[1..]));
+        }
+        (20, 5) | (21, 9) => {
+            m.ptype = if g == 20 { Counter } else { FrozenCounter };
+            m.val = Val::U32(le32(b));
+        }
+        (20, 6) | (21, 10) => {
+            m.ptype = if g == 20 { Counter } else { FrozenCounter };
+            m.val = Val::U16(le16(b));
+        }
+        (21, 5) | (22, 5) | (23, 5) => {
+            m.ptype = if g == 22 { Counter } else { FrozenCounter };
+            m.flags = Some(b[0]);
+            m.val = Val::U32(le32(&b[1..]));
+            m.time = Some(rd48(&b[5..]));
+        }
+        (21, 6) | (22, 6) | (23, 6) => {
+            m.ptype = if g == 22 { Counter } else { FrozenCounter };
+            m.flags = Some(b[0]);
+            m.val = Val::U16(le16(&b[1..]));
+            m.time = Some(rd48(&b[3..]));
+        }
+        (30, 1) | (31, 1) | (32, 1) | (33, 1) | (40, 1) | (42, 1) => {
+            m.flags = Some(b[0]);
+            m.val = Val::I32(le32(&b[1..]) as i32);
+        }
+        (30, 2) | (31, 2) | (32, 2) | (33, 2) | (40, 2) | (42, 2) => {
+            m.flags = Some(b[0]);
+            m.val = Val::I16(le16(&b[1..]) as i16);
+        }
+        (30, 3) | (31, 5) => m.val = Val::I32(le32(b) as i32),
+        (30, 4) | (31, 6) => m.val = Val::I16(le16(b) as i16),
+        (30, 5) | (31, 7) | (32, 5) | (33, 5) | (40, 3) | (42, 5) => {
+            m.flags = Some(b[0]);
+            m.val = Val::F32(lef32(&b[1..]));
+        }
+        (30, 6) | (31, 8) | (32, 6) | (33, 6) | (40, 4) | (42, 6) => {
+            m.flags = Some(b[0]);
+            m.val = Val::F64(lef64(&b[1..]));
+        }
+        (31, 3) | (32, 3) | (33, 3) | (42, 3) => {
+            m.flags = Some(b[0]);
+            m.val = Val::I32(le32(&b[1..]) as i32);
+            m.time = Some(rd48(&b[5..]));
+        }
+        (31, 4) | (32, 4) | (33, 4) | (42, 4) => {
+            m.flags = Some(b[0]);
+            m.val = Val::I16(le16(&b[1..]) as i16);
+            m.time = Some(rd48(&b[3..]));
+        }
+        (32, 7) | (33, 7) | (42, 7) => {
+            m.flags = Some(b[0]);
+            m.val = Val::F32(lef32(&b[1..]));
+            m.time = Some(rd48(&b[5..]));
+        }
+        (32, 8) | (33, 8) | (42, 8) => {
+            m.flags = Some(b[0]);
+            m.val = Val::F64(lef64(&b[1..]));
+            m.time = Some(rd48(&b[9..]));
+        }
+        (34, 1) => {
+            m.ptype = AnalogDeadBand;
+            m.val = Val::U16(le16(b));
+        }
+        (34, 2) => {
+            m.ptype = AnalogDeadBand;
+            m.val = Val::U32(le32(b));
+        }
+        (34, 3) => {
+            m.ptype = AnalogDeadBand;
+            m.val = Val::F32(lef32(b));
+        }
+        (43, 1) | (43, 3) => {
+            m.ptype = AnalogCommandEvent;
+            m.status = Some(b[0]);
+            m.val = Val::I32(le32(&b[1..]) as i32);
+            if v == 3 {
+                m.time = Some(rd48(&b[5..]));
+            }
+        }
+        (43, 2) | (43, 4) => {
+            m.ptype = AnalogCommandEvent;
+            m.status = Some(b[0]);
+            m.val = Val::I16(le16(&b[1..]) as i16);
+            if v == 4 {
+                m.time = Some(rd48(&b[3..]));
+            }
+        }
+        (43, 5) | (43, 7) => {
+            m.ptype = AnalogCommandEvent;
+            m.status = Some(b[0]);
+            m.val = Val::F32(lef32(&b[1..]));
+            if v == 7 {
+                m.time = Some(rd48(&b[5..]));
+            }
+        }
+        (43, 6) | (43, 8) => {
+            m.ptype = AnalogCommandEvent;
+            m.status = Some(b[0]);
+            m.val = Val::F64(lef64(&b[1..]));
+            if v == 8 {
+                m.time = Some(rd48(&b[9..]));
+            }
+        }
+        (102, 1) => {
+            m.ptype = UnsignedInteger;
+            m.val = Val::U8(b[0]);
+        }
+        (110, _) | (111, _) => {
+            m.ptype = OctetString;
+            m.val = Val::Bytes(b.to_vec());
+        }
+        _ => return None,
+    }
+    match g {
+        30 | 32 => m.ptype = Analog,
+        31 | 33 => m.ptype = FrozenAnalog,
+        40 | 42 => m.ptype = AnalogOutputStatus,
+        _ => {}
+    }
+    Some(m)
+}
+
+/// Decode every measurement of a response's object data, resolving g2v3/g4v3
+/// relative times against the preceding g51 common time of occurrence.
+/// Returns (measurements, common-time headers seen as (synchronized, time)).
+pub fn decode_response_measurements(objects: &[u8]) -> Result<(Vec<Meas>, Vec<(bool, u64)>), WalkErr> {
+    let w = walk(F_RESPONSE, objects, true);
+    if let Some(e) = w.error {
+        return Err(e);
+    }
+    let mut out = vec![];
+    let mut ctos = vec![];
+    let mut cto: Option<(bool, u64)> = None;
+    for h in &w.headers {
+        if h.group == 51 {
+            if let Some(o) = h.objs.first() {
+                cto = Some((h.var == 1, rd48(&o.bytes)));
+                ctos.push(cto.unwrap());
+            }
+            continue;
+        }
+        for o in &h.objs {
+            if let Some(mut m) = decode_meas(h.group, h.var, o.index.unwrap_or(0), &o.bytes) {
+                if let (Some(rel), Some((_, base))) = (m.rel_time, cto) {
+                    m.time = Some(base + rel as u64);
+                }
+                out.push(m);
+            }
+        }
+    }
+    Ok((out, ctos))
+}
+
+pub fn self_test() -> Result<(), String> {
+    // integrity poll
+    let rq = B::request(F_READ, 1).all(60, 2).all(60, 3).all(60, 4).all(60, 1).done();
+    if rq != [0xC1, 0x01, 0x3C, 0x02, 0x06, 0x3C, 0x03, 0x06, 0x3C, 0x04, 0x06, 0x3C, 0x01, 0x06] {
+        return Err("builder self test".into());
+    }
+    let w = walk(F_READ, &rq[2..], false);
+    if w.error.is_some() || w.headers.len() != 4 || !w.defined {
+        return Err(format!("walker self test: {w:?}"));
+    }
+    // response with g1v2 range 0..2 and g30v1 range 5..5
+    let rs = B::response(FIR | FIN, false, 0, 0).range8(1, 2, 0, 2, &[0x81, 0x01, 0x80]).range16(30, 1, 5, 5, &[0x01, 0x2A, 0, 0, 0]).done();
+    let (m, _) = decode_response_measurements(&rs[4..]).map_err(|e| format!("{e:?}"))?;
+    if m.len() != 4 || m[0].val != Val::Bool(true) || m[1].val != Val::Bool(false) || m[3].val != Val::I32(42) || m[3].index != 5 {
+        return Err(format!("decoder self test {m:?}"));
+    }
+    // truncation
+    let w = walk(F_RESPONSE, &rs[4..rs.len() - 1], false);
+    if w.error != Some(WalkErr::Truncated) {
+        return Err("truncation self test".into());
+    }
+    Ok(())
+}
